@@ -210,10 +210,10 @@ PAGE_PATHS = ['/', '/index.html', '/a.html', '/b.html', '/d1/', '/d1/p1.html', '
 
 
 def gen_site(tape, nhosts=1, npages=6, with_requisites=True, with_redirects=True, start_in_subdir=False, foreign=False,
-             cross_host_links=True):
+             cross_host_links=True, main_port=None):
     """Generate a site graph. Returns (site, start resources)."""
     site = Site()
-    main = site.add_origin('http', 'site.test')
+    main = site.add_origin('http', 'site.test', main_port)
     hosts = [main]
     if nhosts >= 2:
         hosts.append(site.add_origin('http', 'other.test'))
